@@ -88,7 +88,11 @@ func (g *Exec) smallNum() *awk.Node {
 }
 
 func (g *Exec) fieldIndex() *awk.Node {
-	switch g.n(0, 7, "fik") {
+	switch g.n(0, 11, "fik") {
+	case 11:
+		return g.edgeNum() // constant-field shortcuts at and beyond the integer edges
+	case 8, 9, 10:
+		return awk.NumN(float64(g.n(0, 5, "fi")))
 	case 0:
 		return awk.VarN("NF")
 	case 1:
@@ -468,6 +472,25 @@ func (g *Exec) stmts(d int, lo, hi int) []*awk.Node {
 }
 
 // Stmt draws one statement (possibly with a preceding counter reset).
+// convfmtChain: a concatenation of three or more operands whose third (or a
+// later) operand changes CONVFMT; the operands to its left have been converted
+// (pairwise, left to right) before it is evaluated.  Only generated as a whole
+// statement operand: elsewhere (print lists, subscript lists) the moment of
+// conversion relative to the evaluation of sibling expressions is not defined.
+func (g *Exec) convfmtChain(d int) *awk.Node {
+	g.Feat["concat-convfmt"]++
+	frac := func() *awk.Node { return awk.BinN(g.leaf(), "/", awk.NumN(float64(g.n(3, 7, "cdiv")))) }
+	n := awk.BinN(frac(), " ", awk.StrN(","))
+	for j := g.n(0, 2, "cpre"); j > 0; j-- {
+		n = awk.BinN(n, " ", g.Expr(d-1))
+	}
+	n = awk.BinN(n, " ", awk.GroupN(awk.AssignN(awk.VarN("CONVFMT"), "=", awk.StrN(g.pick([]string{"%.2g", "%.3f", "%.4e", "%.6g"}, "cfv")))))
+	for j := g.n(0, 2, "cpost"); j > 0; j-- {
+		n = awk.BinN(n, " ", frac())
+	}
+	return n
+}
+
 func (g *Exec) Stmt(d int) []*awk.Node {
 	k := g.n(0, 39, "sk")
 	if d <= 0 && k >= 22 && k < 34 {
@@ -484,6 +507,9 @@ func (g *Exec) Stmt(d int) []*awk.Node {
 	case k < 17:
 		return one(g.printStmt(3))
 	case k < 19:
+		if g.n(0, 3, "chain") == 0 {
+			return one(awk.ExprS(awk.AssignN(awk.VarN(g.pick([]string{"g0", "g1", "s0"}, "chv")), "=", g.convfmtChain(2))))
+		}
 		return one(awk.ExprS(g.Expr(3)))
 	case k < 20:
 		a := g.arrayName()
